@@ -1382,7 +1382,15 @@ pub fn c(prop: &str, seed: u64) -> RunDesc {
         }
     }
     let which = rng.below(3);
-    let attempts = 1 + rng.below(3);
+    // variant (weak CAS only): many attempts against a busy flipper, frequent switches: whatever
+    // the retry loop of compare_exchange_weak does after a stamp-only mismatch, it does it while
+    // the cell changes under it
+    let busy = which == 1 && prov != 3 && Rng::new(seed ^ 0xC8).chance(0.6);
+    let attempts = if busy { 4 + rng.below(5) } else { 1 + rng.below(3) };
+    if busy {
+        d.cfg.strategy = 0;
+        d.cfg.p_switch = 0.7;
+    }
     for _ in 0..attempts {
         match which {
             0 => v.push(o(K::Cas, ROOT0, 0, 4, 0)),
@@ -1400,10 +1408,10 @@ pub fn c(prop: &str, seed: u64) -> RunDesc {
         }
         c.push(o(K::Signal, 2, 0, 0, 0));
         d.threads.push(thread(0, "re-stamper", c));
-    } else if rng.chance(0.6) {
-        let mut c = rounds(rng.below(3) as usize);
+    } else if rng.chance(0.6) || busy {
+        let mut c = rounds(if busy { 0 } else { rng.below(3) as usize });
         c.extend([o(K::New, 0, NONE_SLOT, 3, 0), o(K::Pin, 0, 0, 0, 0)]);
-        for _ in 0..2 + rng.below(5) {
+        for _ in 0..2 + rng.below(5) + if busy { 12 } else { 0 } {
             c.push(o(K::Swap, ROOT0, 0, 0, 0));
         }
         c.push(o(K::Unpin, 0, 0, 0, 0));
@@ -1412,6 +1420,6 @@ pub fn c(prop: &str, seed: u64) -> RunDesc {
     if rng.chance(0.3) {
         d.threads.push(thread(0, "ticker", rounds(1 + rng.below(4) as usize)));
     }
-    d.params = J::obj().set("template", "C expected-provenance for AtomicRc CAS").set("provenance", prov).set("epoch_gap", gap).set("op", which).set("tagged", tagged);
+    d.params = J::obj().set("template", "C expected-provenance for AtomicRc CAS").set("provenance", prov).set("epoch_gap", gap).set("op", which).set("tagged", tagged).set("busy_flipper", busy);
     d
 }
